@@ -50,7 +50,8 @@ deriving Inhabited, Repr
 structure St where
   /-- supernodes, NEWEST FIRST -/
   sns : List SN
-  /-- U row sets of the columns done, NEWEST FIRST -/
+  /-- U row sets of the columns covered by `sns`, NEWEST FIRST (a relaxed supernode enters all its
+  columns at once: they have no U part outside the supernode) -/
   ucols : List (List Nat)
 deriving Inhabited, Repr
 
@@ -99,13 +100,14 @@ def colStep (maxsuper : Nat) (col : List Nat) (j : Nat) (st : St) : St :=
 def relaxStep (n : Nat) (cols : Nat → List Nat) (j k : Nat) (st : St) : St :=
   let k := max j (min k (n - 1))
   let rows := (seg j k).foldl (fun acc i => union acc (cols i)) []
-  { sns := { first := j, last := k, relaxed := true, rows := rows, expl := rows } :: st.sns, ucols := [] :: st.ucols }
+  { sns := { first := j, last := k, relaxed := true, rows := rows, expl := rows } :: st.sns,
+    ucols := List.replicate (k + 1 - j) [] ++ st.ucols }
 
 /-- one column: inside a relaxed supernode already opened / start of one / ordinary column -/
 def step (n maxsuper : Nat) (cols : Nat → List Nat) (relaxEnd : Nat → Option Nat) (st : St) (j : Nat) : St :=
   match st.sns with
   | t :: _ =>
-    if j ≤ t.last then { st with ucols := [] :: st.ucols } else
+    if j ≤ t.last then st else
     match relaxEnd j with
     | some k => relaxStep n cols j k st
     | none => colStep maxsuper (cols j) j st
